@@ -207,12 +207,18 @@ std::shared_ptr<base::ISampledDimension> DataArrayHDF5::createSampledDimension(n
 
 
 std::shared_ptr<base::IDataFrameDimension> DataArrayHDF5::createDataFrameDimension(ndsize_t index, const nix::DataFrame &df, unsigned col_index) {
+    if (!block()->hasEntity(df)) {
+        throw std::runtime_error("DataArrayHDF5::createDataFrameDimension: DataFrame not found in block!");
+    }
     H5Group g = createDimensionGroup(index);
     return make_shared<DataFrameDimensionHDF5>(g, index, file(), block(), df, col_index);
 }
 
 
 std::shared_ptr<base::IDataFrameDimension> DataArrayHDF5::createDataFrameDimension(ndsize_t index, const nix::DataFrame &df) {
+    if (!block()->hasEntity(df)) {
+        throw std::runtime_error("DataArrayHDF5::createDataFrameDimension: DataFrame not found in block!");
+    }
     H5Group g = createDimensionGroup(index);
     return make_shared<DataFrameDimensionHDF5>(g, index, file(), block(), df);
 }
